@@ -24,6 +24,7 @@ import (
 	"go/types"
 	"os"
 	"path/filepath"
+	"reflect"
 	"strconv"
 	"strings"
 )
@@ -218,7 +219,7 @@ func (c *fileCtx) walkStmtFuncLits(s ast.Stmt) {
 	})
 }
 
-func (c *fileCtx) walkExprFuncLits(e ast.Node) { 
+func (c *fileCtx) walkExprFuncLits(e ast.Node) {
 	ast.Inspect(e, func(x ast.Node) bool {
 		if fl, ok := x.(*ast.FuncLit); ok {
 			fl.Body.List = c.rewriteList(fl.Body.List)
@@ -226,6 +227,79 @@ func (c *fileCtx) walkExprFuncLits(e ast.Node) {
 		}
 		return true
 	})
+}
+
+// isAtomicCall: a call of a sync/atomic function or of a method of a sync/atomic type.
+func (c *fileCtx) isAtomicCall(ce *ast.CallExpr) bool {
+	se, ok := ce.Fun.(*ast.SelectorExpr)
+	if !ok {
+		return false
+	}
+	if id, ok := se.X.(*ast.Ident); ok {
+		if pn, ok := c.info.Uses[id].(*types.PkgName); ok {
+			return pn.Imported().Path() == "sync/atomic"
+		}
+	}
+	if selInfo, ok := c.info.Selections[se]; ok && selInfo.Kind() == types.MethodVal {
+		rt := selInfo.Recv()
+		if p, ok := rt.(*types.Pointer); ok {
+			rt = p.Elem()
+		}
+		if n, ok := rt.(*types.Named); ok && n.Obj().Pkg() != nil {
+			return n.Obj().Pkg().Path() == "sync/atomic"
+		}
+	}
+	return false
+}
+
+var exprType = reflect.TypeOf((*ast.Expr)(nil)).Elem()
+
+// replaceExprs applies f bottom-up to every expression reachable from n (reflection over the AST:
+// the standard library has no expression-rewriting visitor).
+func replaceExprs(n ast.Node, f func(ast.Expr) ast.Expr) {
+	seen := map[uintptr]bool{}
+	var walk func(v reflect.Value)
+	walk = func(v reflect.Value) {
+		switch v.Kind() {
+		case reflect.Interface:
+			if !v.IsNil() {
+				walk(v.Elem())
+			}
+		case reflect.Ptr:
+			if v.IsNil() || seen[v.Pointer()] {
+				return
+			}
+			seen[v.Pointer()] = true
+			if v.Type().String() == "*ast.Object" || v.Type().String() == "*ast.Scope" {
+				return
+			}
+			walk(v.Elem())
+		case reflect.Struct:
+			for i := 0; i < v.NumField(); i++ {
+				fv := v.Field(i)
+				if !fv.CanSet() {
+					continue
+				}
+				walk(fv)
+				if fv.Type() == exprType && !fv.IsNil() {
+					if ne := f(fv.Interface().(ast.Expr)); ne != nil {
+						fv.Set(reflect.ValueOf(ne))
+					}
+				}
+			}
+		case reflect.Slice:
+			for i := 0; i < v.Len(); i++ {
+				ev := v.Index(i)
+				walk(ev)
+				if ev.Type() == exprType && !ev.IsNil() {
+					if ne := f(ev.Interface().(ast.Expr)); ne != nil {
+						ev.Set(reflect.ValueOf(ne))
+					}
+				}
+			}
+		}
+	}
+	walk(reflect.ValueOf(n))
 }
 
 func (c *fileCtx) run() {
@@ -247,6 +321,40 @@ func (c *fileCtx) run() {
 			c.need("vchoice")
 		}
 		return true
+	})
+	// 2b. sync/atomic operations become scheduling points: atomic.AddInt64(&x, 1) →
+	// vsched.Atomic1(func() int64 { return atomic.AddInt64(&x, 1) }) (the wrapper parks the thread
+	// first; the real atomic operation is kept, so the race detector still sees it)
+	replaceExprs(c.file, func(e ast.Expr) ast.Expr {
+		ce, ok := e.(*ast.CallExpr)
+		if !ok || !c.isAtomicCall(ce) {
+			return e
+		}
+		c.need("vsched")
+		t := c.info.TypeOf(ce)
+		if t == nil {
+			return e
+		}
+		if tup, ok := t.(*types.Tuple); ok && tup.Len() == 0 {
+			return call(sel("vsched", "Atomic0"), &ast.FuncLit{Type: &ast.FuncType{Params: &ast.FieldList{}}, Body: &ast.BlockStmt{List: []ast.Stmt{&ast.ExprStmt{X: ce}}}})
+		}
+		var te ast.Expr
+		switch u := t.(type) {
+		case *types.Basic:
+			te = ast.NewIdent(u.Name())
+		case *types.Interface:
+			if u.Empty() {
+				te = ast.NewIdent("any")
+			}
+		}
+		if te == nil {
+			c.notes = append(c.notes, fmt.Sprintf("%s: atomic operation with result type %s left without a scheduling point", c.fset.Position(ce.Pos()), t))
+			return e
+		}
+		return call(sel("vsched", "Atomic1"), &ast.FuncLit{
+			Type: &ast.FuncType{Params: &ast.FieldList{}, Results: &ast.FieldList{List: []*ast.Field{{Type: te}}}},
+			Body: &ast.BlockStmt{List: []ast.Stmt{&ast.ReturnStmt{Results: []ast.Expr{ce}}}},
+		})
 	})
 	// 3. statements
 	for _, d := range c.file.Decls {
@@ -326,7 +434,7 @@ func main() {
 			files = append(files, f)
 			names = append(names, e.Name())
 		}
-		info := &types.Info{Types: map[ast.Expr]types.TypeAndValue{}, Uses: map[*ast.Ident]types.Object{}, Defs: map[*ast.Ident]types.Object{}}
+		info := &types.Info{Types: map[ast.Expr]types.TypeAndValue{}, Uses: map[*ast.Ident]types.Object{}, Defs: map[*ast.Ident]types.Object{}, Selections: map[*ast.SelectorExpr]*types.Selection{}}
 		conf := types.Config{Importer: importer.ForCompiler(fset, "source", nil), Error: func(err error) { fmt.Fprintln(os.Stderr, "typeerr:", err) }}
 		if _, err := conf.Check(rel, fset, files, info); err != nil {
 			fmt.Fprintln(os.Stderr, "vinstr: type check of", rel, "failed:", err)
